@@ -471,7 +471,9 @@ PMM_RULE = ('maps start in low memory or around/above 4 GiB, 1 TiB, 16 TiB (fram
             'included (early-boot frames from several regions), memory behind the reserved block filled with a canary; 14% have a '
             'kernel image of 65-200 frames whose first/last frame sits at offset 0,1,62,63,random modulo 64 of its pool; frees '
             'include frame numbers aliasing managed frames modulo 2^8..2^52 and byte addresses; thorough tier also drains ~30k-frame '
-            'maps completely; otherwise memory maps as for C02 (1-6 regions, word-boundary frame counts 1/63/64/65/127/128/129/200 and random <= 600, aligned or '
+            'maps completely; ~1% (unit 2^8) plus two per quick run / 0.15% in thorough (unit 2^16, 70k-400k operations) are long histories on small '
+            'multi-pool maps whose number of successful frees reaches k*unit (+-2) exactly when an allocation must come from a higher pool, '
+            'followed by a drain to out-of-memory; otherwise memory maps as for C02 (1-6 regions, word-boundary frame counts 1/63/64/65/127/128/129/200 and random <= 600, aligned or '
             'unaligned, sub-page regions, non-available types interleaved), kernel image at start/middle/end/whole/tail of a random '
             'available region; pmm.Init with the reserve seam failing in ~3% and the map seam in ~4% of the cases; then an op history: '
             'drain(+0..2), alloc-heavy, free-heavy, churn, bad frees (never-allocated, out-of-pool, twice-freed, arbitrary 64-bit '
